@@ -33,7 +33,7 @@ type Case struct {
 var checker = &vk.Checker[Case]{
 	ID: "C09",
 	Rule: "(s, from, to) with 0<=from<=to<=8*len(s): aligned/unaligned ends, empty aligned and empty unaligned ranges, unaligned from (floors to a byte), bytes 00/80/ff/7f boosted, lengths 0..20 (thorough 0..64) on both sides of the 8-byte fast path; pairs correlated on purpose (same source with another end, one bit flipped before/at/after the shorter end, prefix relation) or independent; " +
-		"plain a derived from b's source (truncated, extended, bit flipped below/at/beyond Len(b), flips only in the masked-off bits of the last byte) or unrelated, shorter/equal/longer than b's payload. Oracle: []bool bit strings, lexicographic with a proper prefix first; Len; Cmp antisymmetry; StrCmpUpto == CmpUpto from four call contexts (direct, func value, closure, fresh goroutine) with the string's bytes unchanged. " +
+		"plain a derived from b's source (truncated, extended, bit flipped below/at/beyond Len(b), flips only in the masked-off bits of the last byte) or unrelated, shorter/equal/longer than b's payload. Oracle: []bool bit strings, lexicographic with a proper prefix first; Len; Cmp antisymmetry; StrCmpUpto == CmpUpto from several call contexts (direct, func value, closure, fresh goroutine, closures entered right after the stack was overwritten with 00/ff) with the string's bytes unchanged. " +
 		"Grid: all strings of length <= 2 over {00,01,7f,80,ff} x from in {0,3,8,11} x all to: all pairs for Cmp, all plain strings of length <= 3 over the alphabet for CmpUpto. Non-trivial: the two bit strings share >= 1 leading bit and one ends unaligned; CmpUpto: b non-empty and len(a) >= payload bytes - 1. Grid pairs distinct by construction; rapid cases hashed when a source is longer than 2 bytes (3 for a).",
 	Check:    check,
 	Classify: classify,
@@ -99,6 +99,34 @@ func viaGoroutine(a string, b []byte) (r int, p any) {
 	return
 }
 
+var sinkByte byte
+
+// dirtyStack leaves the byte v all over the stack area the next call will use:
+// StrCmpUpto once took the capacity of its []byte view from such left-over memory.
+//
+//go:noinline
+func dirtyStack(v byte) {
+	var buf [1024]byte
+	for i := range buf {
+		buf[i] = v
+	}
+	sinkByte = buf[int(v)+17]
+}
+
+// viaDirtyStack calls StrCmpUpto from closures of two shapes right after the stack was overwritten with v.
+func viaDirtyStack(ab []byte, as string, b []byte, v byte) (r1, r2 int, p any) {
+	defer func() { p = recover() }()
+	f1 := func() string { return fmt.Sprint(bitstr.CmpUpto(ab, b), bitstr.StrCmpUpto(as, b)) }
+	f2 := func() int { return bitstr.StrCmpUpto(as, b) }
+	dirtyStack(v)
+	s := f1()
+	dirtyStack(v)
+	r2 = f2()
+	var c int
+	fmt.Sscan(s, &c, &r1)
+	return
+}
+
 func checkCmpUpto(a []byte, x Range) *vk.Failure {
 	e, f := encode(x)
 	if f != nil || e == nil {
@@ -138,6 +166,15 @@ func checkCmpUpto(a []byte, x Range) *vk.Failure {
 	g4, p = viaGoroutine(as, ec)
 	if p != nil {
 		return vk.Failf("strcmpupto-panic", "StrCmpUpto(%x, %x) panicked in a fresh goroutine: %v", a, e, p)
+	}
+	for _, v := range []byte{0x00, 0xff} {
+		d1, d2, p := viaDirtyStack(ac, as, ec, v)
+		if p != nil {
+			return vk.Failf("strcmpupto-panic", "StrCmpUpto(%x, %x) panicked when called after the stack had been filled with %#x: %v", a, e, v, p)
+		}
+		if d1 != got || d2 != got {
+			return vk.Failf("strcmpupto", "StrCmpUpto(%x, %x) = %d/%d after the stack had been filled with %#x, CmpUpto = %d", a, e, d1, d2, v, got)
+		}
 	}
 	if g1 != got || g2 != got || g3 != got || g4 != got {
 		return vk.Failf("strcmpupto", "StrCmpUpto(%x, %x) = %d/%d/%d/%d (direct/func value/closure/goroutine), CmpUpto = %d", a, e, g1, g2, g3, g4, got)
